@@ -193,8 +193,8 @@ Fixpoint search_at (U : utables) (r : re) (prev : option N) (s : list N) : bool 
 Definition search (U : utables) (r : re) (s : list N) : bool := search_at U r None s.
 
 (** ** Parser (regexp/syntax, flags Perl) *)
-Inductive pres (A : Type) := POk (a : A) | PErr | PUnsup.
-Arguments POk {A} a. Arguments PErr {A}. Arguments PUnsup {A}.
+Inductive pres (A : Type) := POk (a : A) | PErr | PUnsup | PFuel.   (* PFuel: the parser's fuel ran out (never observed; out of model) *)
+Arguments POk {A} a. Arguments PErr {A}. Arguments PUnsup {A}. Arguments PFuel {A}.
 
 Record flags := { fl_i : bool; fl_m : bool; fl_s : bool }.
 Definition flags0 := {| fl_i := false; fl_m := false; fl_s := false |}.
@@ -406,7 +406,7 @@ Definition add_ranges (new rs : list (N * N)) : list (N * N) :=
 (** class body after '[' (and optional '^'); [first]: ']' is a literal here *)
 Fixpoint parse_class_body (U : utables) (fuel : nat) (s : list N) (first : bool) (acc : list (N * N)) : pres (list (N * N) * list N) :=
   match fuel with
-  | O => PErr
+  | O => PFuel
   | S fuel' =>
       match s with
       | [] => PErr                                    (* missing closing ] *)
@@ -436,7 +436,7 @@ Fixpoint parse_class_body (U : utables) (fuel : nat) (s : list N) (first : bool)
 with parse_class_item (U : utables) (fuel : nat) (lo : N) (s : list N) (acc : list (N * N)) : pres (list (N * N) * list N) :=
   (* a single rune [lo] was read; is it the start of a range lo-hi ? *)
   match fuel with
-  | O => PErr
+  | O => PFuel
   | S fuel' =>
       match s with
       | d :: h :: s' =>
@@ -498,7 +498,7 @@ Definition skip_lazy (s : list N) : list N :=
 
 Fixpoint parse_altn (U : utables) (fuel : nat) (f : flags) (s : list N) (depth : nat) : pres (re * list N) :=
   match fuel with
-  | O => PErr
+  | O => PFuel
   | S fuel' =>
       match parse_seq U fuel' f s depth Eps NoAtom with
       | POk (r, rest, f') =>
@@ -507,12 +507,12 @@ Fixpoint parse_altn (U : utables) (fuel : nat) (f : flags) (s : list N) (depth :
               if c =? 124 then
                 match parse_altn U fuel' f' rest' depth with
                 | POk (r2, rest2) => POk (Alt r r2, rest2)
-                | PErr => PErr | PUnsup => PUnsup
+                | PErr => PErr | PUnsup => PUnsup | PFuel => PFuel
                 end
               else POk (r, rest)
           | [] => POk (r, rest)
           end
-      | PErr => PErr | PUnsup => PUnsup
+      | PErr => PErr | PUnsup => PUnsup | PFuel => PFuel
       end
   end
 with parse_seq (U : utables) (fuel : nat) (f : flags) (s : list N) (depth : nat) (acc : re) (cur : atom_state)
@@ -520,7 +520,7 @@ with parse_seq (U : utables) (fuel : nat) (f : flags) (s : list N) (depth : nat)
   let flush := match cur with NoAtom => acc | HasAtom r _ => mk_cat acc r end in
   (* a parenthesised group body [body] parsed with flags [fin]; continue after ')' with flags [fout] *)
   match fuel with
-  | O => PErr
+  | O => PFuel
   | S fuel' =>
       let group (fin : flags) (body : list N) : pres (re * list N * flags) :=
         match parse_altn U fuel' fin body (S depth) with
@@ -529,7 +529,7 @@ with parse_seq (U : utables) (fuel : nat) (f : flags) (s : list N) (depth : nat)
             | Some rest' => parse_seq U fuel' f rest' depth flush (HasAtom r false)
             | None => PErr
             end
-        | PErr => PErr | PUnsup => PUnsup
+        | PErr => PErr | PUnsup => PUnsup | PFuel => PFuel
         end in
       match s with
       | [] => POk (flush, [], f)
@@ -588,7 +588,7 @@ with parse_seq (U : utables) (fuel : nat) (f : flags) (s : list N) (depth : nat)
             let '(neg, s1) := match s' with h :: t => if h =? 94 then (true, t) else (false, s') | [] => (false, s') end in
             match parse_class_body U (S (S (List.length s1)) * 2) s1 true [] with
             | POk (rs, rest) => parse_seq U fuel' f rest depth flush (HasAtom (Cls neg rs (fl_i f)) false)
-            | PErr => PErr | PUnsup => PUnsup
+            | PErr => PErr | PUnsup => PUnsup | PFuel => PFuel
             end
           else if c =? 46 then
             parse_seq U fuel' f s' depth flush (HasAtom (if fl_s f then any_char else any_not_nl) false)
@@ -626,6 +626,7 @@ Definition parse_re (U : utables) (expr : str) : pres re :=
   | POk (_, _ :: _) => PErr
   | PErr => PErr
   | PUnsup => PUnsup
+  | PFuel => PFuel
   end.
 
 (** regexp.QuoteMeta *)
